@@ -156,6 +156,7 @@ pub fn scenario(pr: &Params) -> Verdict {
             Ty::Push | Ty::Dealer => {
                 for i in 0..5 {
                     let (vb, lb) = (world::tap_len(victim.from_lib), world::tap_len(live.from_lib));
+                    world::yield_now().await; // time passes between two calls of the application
                     let r = sock.send(msg(&[format!("s{}", i).into_bytes()])).await;
                     do_send(format!("#{}", i), r, vb, lb);
                 }
@@ -163,6 +164,7 @@ pub fn scenario(pr: &Params) -> Verdict {
             Ty::Req => {
                 for i in 0..5 {
                     let (vb, lb) = (world::tap_len(victim.from_lib), world::tap_len(live.from_lib));
+                    world::yield_now().await; // time passes between two calls of the application
                     let r = sock.send(msg(&[format!("s{}", i).into_bytes()])).await;
                     let ok = r.is_ok();
                     do_send(format!("#{}", i), r, vb, lb);
@@ -179,6 +181,7 @@ pub fn scenario(pr: &Params) -> Verdict {
             Ty::Pub | Ty::XPub => {
                 for i in 0..3 {
                     let (vb, lb) = (world::tap_len(victim.from_lib), world::tap_len(live.from_lib));
+                    world::yield_now().await; // time passes between two calls of the application
                     let r = sock.send(msg(&[format!("news{}", i).into_bytes()])).await;
                     do_send(format!("publish#{}", i), r, vb, lb);
                 }
@@ -188,17 +191,20 @@ pub fn scenario(pr: &Params) -> Verdict {
                 if let Some(v) = v {
                     for i in 0..2 {
                         let (vb, lb) = (world::tap_len(victim.from_lib), world::tap_len(live.from_lib));
+                        world::yield_now().await; // time passes between two calls of the application
                         let r = sock.send(msg(&[v.clone(), format!("to-victim{}", i).into_bytes()])).await;
                         do_send(format!("to-victim#{}", i), r, vb, lb);
                     }
                 }
                 let (vb, lb) = (world::tap_len(victim.from_lib), world::tap_len(live.from_lib));
+                world::yield_now().await; // time passes between two calls of the application
                 let r = sock.send(msg(&[b"L".to_vec(), b"to-live".to_vec()])).await;
                 do_send("to-live".into(), r, vb, lb);
             }
             Ty::Rep => {
                 // reply to the last request received (the live peer's)
                 let (vb, lb) = (world::tap_len(victim.from_lib), world::tap_len(live.from_lib));
+                world::yield_now().await; // time passes between two calls of the application
                 let r = sock.send(msg(&[b"reply".to_vec()])).await;
                 do_send("reply".into(), r, vb, lb);
             }
